@@ -269,3 +269,31 @@ Theorem struct_pins_current :
   pin_mschema_magic_matches = "840b98b15c285b5f"%string /\
   pin_mschema_schema_from_header = "81e6048eb6d5da4e"%string.
 Proof. repeat split. Qed.
+
+(* ---------------------------------------------------------------------- *)
+(* header recognition: exactly the data that start with a complete magic   *)
+
+Lemma prefix_eqb_split : forall p l, prefix_eqb p l = true -> exists r, l = p ++ r.
+Proof.
+  induction p as [|x p IH]; intros l H.
+  - exists l. reflexivity.
+  - destruct l as [|y l]; [discriminate|]. cbn [prefix_eqb] in H.
+    apply andb_true_iff in H. destruct H as [Hx H]. apply N.eqb_eq in Hx. subst y.
+    destruct (IH l H) as [r ->]. exists r. reflexivity.
+Qed.
+
+Theorem mut_header_recognition :
+  (forall v r, mem_N v mschema_versions = true ->
+     mut_schema_from_header mschema_versions (mut_magic v ++ r) = Some v) /\
+  (forall data v, mut_schema_from_header mschema_versions data = Some v ->
+     mem_N v mschema_versions = true /\ exists r, data = mut_magic v ++ r) /\
+  (forall data, (length data < 32)%nat -> mut_schema_from_header mschema_versions data = None).
+Proof.
+  split; [exact mut_schema_of_magic|]. split.
+  - intros data v H. apply mut_schema_from_header_some in H. destruct H as [Hp Hv].
+    split; [exact Hv|]. apply prefix_eqb_split. exact Hp.
+  - intros data Hlen. destruct (mut_schema_from_header mschema_versions data) as [v|] eqn:E; [|reflexivity].
+    apply mut_schema_from_header_some in E. destruct E as [Hp Hv].
+    apply prefix_eqb_split in Hp. destruct Hp as [r ->].
+    rewrite app_length, (mut_magic_len v Hv) in Hlen. lia.
+Qed.
